@@ -295,16 +295,17 @@ def reverseVerdict [DecidableEq α] (eq : Pt α → Pt α → Bool) (p r : List 
 
 /-! ## The cutting loop of SplitAt for one Bézier segment (path.go:1563-1575, 1598-1610) -/
 
-/-- For the cut parameters `ts` returned by `invL` (in order): `tsub := (t - t0)/(1 - t0)`, split the
-remainder at `tsub`, emit the left part, keep the right part, `t0 := t`.  Result: the emitted pieces
-and the final remainder.  Generic in the scalar and in the curve type `Q` (control polygon) so that
-the same definition is run on `Float` against the real code and reasoned about over a field. -/
-def cutsGen {Q : Type} (sub div : α → α → α) (one : α) (splitL splitR : Q → α → Q) (r : Q) (t0 : α) :
-    List α → List Q × Q
+/-- For the cut parameters `ts` returned by `invL` (in order): `tsub := (t - t0)/(1 - t0)` - or 1 when the
+previous parameter has reached 1 (`t0 < 1.0` fails: the rest of the curve is its end point, 5884f31) -,
+split the remainder at `tsub`, emit the left part, keep the right part, `t0 := t`.  Result: the emitted
+pieces and the final remainder.  Generic in the scalar and in the curve type `Q` (control polygon) so
+that the same definition is run on `Float` against the real code and reasoned about over a field. -/
+def cutsGen {Q : Type} (lt : α → α → Bool) (sub div : α → α → α) (one : α) (splitL splitR : Q → α → Q)
+    (r : Q) (t0 : α) : List α → List Q × Q
   | [] => ([], r)
   | t :: ts =>
-    let tsub := div (sub t t0) (sub one t0)
-    let rest := cutsGen sub div one splitL splitR (splitR r tsub) t ts
+    let tsub := if lt t0 one then div (sub t t0) (sub one t0) else one
+    let rest := cutsGen lt sub div one splitL splitR (splitR r tsub) t ts
     (splitL r tsub :: rest.1, rest.2)
 
 /-! ## ellipseSplit flag logic (path_util.go:149-162) -/
